@@ -435,6 +435,34 @@ def r7(repo, run):
         run.ok('C18.R7', rep, 'no write to module / class level state in the representer (%d functions)' % len(fam), 'the dump of a node depends on the node and its ancestors only')
 
 
+def r11(repo, run):
+    """a node written without a tag of its own is handed to PyYAML as the plain Python value of its kind: a mapping node as a dict, a
+    list node as a list, a tuple node as a tuple, a scalar node as its built-in base value; a plain (non-node) payload as it is"""
+    rep = repo.func('yaml._node_representer')
+    bad = []
+    base = lambda x: 'BASE'      # noqa: E731
+    base._fde_ok = True
+    payloads = [('ConfigDict', node_obj('payload', 'ConfigDict'), 'dict(payload)'), ('ConfigList', node_obj('payload', 'ConfigList'), 'list(payload)'),
+                ('ConfigTuple', node_obj('payload', 'ConfigTuple'), 'tuple(payload)'), ('ConfigScalar', node_obj('payload', 'ConfigScalar', _dyn_base=base), 'BASE'),
+                ('plain value', 5, 5), ('plain text', 'abc', 'abc')]
+    for what, data, want in payloads:
+        if isinstance(data, Obj) and data.cls not in repo.classes:
+            continue
+        raised, log = dump_case(repo, data.cls if isinstance(data, Obj) else 'ConfigNode', dict(NOFLAGS), None, data, tag='')
+        e = _emit(log)
+        if raised or e is None:
+            bad.append('%s payload: %s' % (what, raised or 'nothing is emitted'))
+            continue
+        got = e[1][0] if e[1] else None
+        got_t = getattr(got, 'name', got)
+        if e[0] != 'represent_data' or got_t != want:
+            bad.append('an untagged %s is written through %s(%s), expected represent_data(%s)' % (what, e[0], got_t, want))
+    if bad:
+        run.violation('C18.R2', rep, 'untagged payloads', '; '.join(bad[:3]))
+    else:
+        run.ok('C18.R2', rep, 'untagged nodes are written as the plain dict / list / tuple / base scalar of their kind')
+
+
 def check(repo, run, tier):
     g = Guard()
     g(r1, repo, run)
@@ -444,17 +472,21 @@ def check(repo, run, tier):
     g(r5, repo, run)
     g(r6, repo, run)
     g(r7, repo, run)
+    g(r11, repo, run)
     g(unitrules.function_tags, repo, run, 'C18.R8')
     g(unitrules.overrides_delegate, repo, run, 'C18.R9', 'AwesomeyamlDumper')
     g(unitrules.wrapped_node_origin, repo, run, 'C18.R10')
     g(unitrules.node_init_table, repo, run, 'C18.R10')
     g(unitrules.path_node_tables, repo, run, 'C18.R6')
     g(unitrules.path_tag_table, repo, run, 'C18.R8')
+    g(unitrules.dump_entry, repo, run, 'C18.R7')
     g.done()
 
 
 def mutants(repo):
     return [
+        Mutant('dump-ignores-the-stream', lambda r: in_func(r, 'yaml.dump', "yaml.dump(ConfigNode(nodes), stream=output, Dumper=get_dumper", "yaml.dump(ConfigNode(nodes), Dumper=get_dumper"), ['C18.R7']),
+        Mutant('tuples-written-as-lists', lambda r: in_func(r, 'yaml._node_representer', "if isinstance(data, cabc.MutableSequence):", "if not isinstance(data, cabc.MutableSequence):"), ['C18.R2']),
         Mutant('explicit-source-file-ignored', lambda r: in_func(r, 'ConfigNode.__init__', "source_file if source_file is not None else", "source_file if source_file is None else"), ['C18.R10']),
         Mutant('write-plain-does-not-delegate', lambda r: in_func(r, 'AwesomeyamlDumper.write_plain', "        super().write_plain(text, *args, **kwargs)\n", "        pass\n"), ['C18.R9']),
         Mutant('bind-tag-of-callable', lambda r: in_func(r, 'BindNode.ayns.tag', "if not isinstance(_func, str):", "if isinstance(_func, str):"), ['C18.R8']),
